@@ -44,6 +44,12 @@ GSingles ==
   \cup {<<[c |-> c, n |-> <<>>, i |-> v]>> : c \in {"set_line_cap", "set_line_join"}, v \in 0..2}
   \cup {<<[c |-> "set_font", n |-> Rot(k, 1), name |-> NameBytes(Fonts[(k % 6) + 1])]>> : k \in 1..NV}
   \cup {<<[c |-> "show_text", n |-> <<>>, t |-> Texts[k]]>> : k \in {x \in 1..Len(Texts) : \A y \in 1..Len(Texts[x]) : Texts[x][y] < 128}}
+\* draw_text: Latin-1 texts (one byte per character), with and without a font chosen first, across save/restore
+Latin1Texts == << <<72, 105>>, <<>>, <<40, 41, 92>>, <<13, 10, 9>>, <<233>>, <<255>>, <<254, 255, 128, 159, 160>>, <<65, 255, 66>>, [x \in 1..30 |-> 225 + x] >>
+GDraw ==
+  {<<[c |-> "draw_text", n |-> Rot(k, 2), t |-> Latin1Texts[((k - 1) % Len(Latin1Texts)) + 1]]>> : k \in 1..NV}
+  \cup {<<[c |-> "set_font", n |-> Rot(7, 1), name |-> NameBytes("Courier")], C0("save_state"), [c |-> "set_font", n |-> Rot(8, 1), name |-> NameBytes("Times-Roman")],
+          [c |-> "draw_text", n |-> Rot(7, 2), t |-> Latin1Texts[k]], C0("restore_state"), [c |-> "draw_text", n |-> Rot(8, 2), t |-> Latin1Texts[k]]>> : k \in 1..Len(Latin1Texts)}
 \* colour and state interplay
 SetF(k, kind) == [c |-> "set_fill_color", n |-> <<>>, col |-> Col(k, kind)]
 SetS(k, kind) == [c |-> "set_stroke_color", n |-> <<>>, col |-> Col(k, kind)]
@@ -79,16 +85,16 @@ PProgs ==
           [c |-> "begin_marked_content", n |-> <<>>, name |-> Tags[1]], [c |-> "end_marked_content", n |-> <<>>]>> : k \in 1..Len(ActualTexts)}
 
 \* the model is a function of the program and has the right shape
-ASSUME \A p \in GSingles \cup GState : Len(GSegs(p)) = 1
+ASSUME \A p \in GSingles \cup GState \cup GDraw : Len(GSegs(p)) = 1
 ASSUME \A p \in TProgs : \A s \in {TExpected(p, 1, TInit0)[x] : x \in 1..Len(TExpected(p, 1, TInit0))} : s.ordered \/ \A a, b \in 1..Len(s.ops) : a # b => s.ops[a].op # s.ops[b].op
 
 VARIABLE done
 Init == done = FALSE
 Next == /\ ~done
-        /\ \A p \in GSingles \cup GState : PrintT(<<"REPLAY", ToJson([kind |-> "g", prog |-> p])>>)
+        /\ \A p \in GSingles \cup GState \cup GDraw : PrintT(<<"REPLAY", ToJson([kind |-> "g", prog |-> p])>>)
         /\ \A p \in TProgs : PrintT(<<"REPLAY", ToJson([kind |-> "t", prog |-> p])>>)
         /\ \A p \in PProgs : PrintT(<<"REPLAY", ToJson([kind |-> "p", prog |-> p])>>)
-        /\ PrintT(<<"COUNT", ToJson([g |-> Cardinality(GSingles \cup GState), t |-> Cardinality(TProgs), p |-> Cardinality(PProgs)])>>)
+        /\ PrintT(<<"COUNT", ToJson([g |-> Cardinality(GSingles \cup GState \cup GDraw), t |-> Cardinality(TProgs), p |-> Cardinality(PProgs)])>>)
         /\ done' = TRUE
 Spec == Init /\ [][Next]_done
 =============================================================================
